@@ -539,3 +539,54 @@ example : agreeGuard .str (.regex ⟨true, [.lit 'a', .any]⟩) = true ∧
     homog .str "x" [[("x", .str "abc")], [("x", .null)]] = true ∧
     RawFilter.parse { col := "x", ftype := "regex", value := .str "^a." } = .ok (.regex ⟨true, [.lit 'a', .any]⟩) := by
   decide +kernel
+
+/-! ## time filters (`GlobalFilter._check_and_convert_time_info`, model `Time.toUtcIso`) -/
+
+/-- the produced text depends only on the instant: the same instant given in ANY zone (any wall clock / utc offset
+pair, any fold) yields the same UTC ISO text, or overflows alike -/
+theorem C11.utc_zone_independent (a b : Time.Aware) (h : a.instant = b.instant) : Time.toUtcIso a = Time.toUtcIso b := by
+  unfold Time.Aware.instant at h
+  have h1 : a.wall - a.offset = b.wall - b.offset := (Prod.mk.inj h).1
+  have h2 : a.micros = b.micros := (Prod.mk.inj h).2
+  unfold Time.toUtcIso
+  simp only [h1, h2]
+
+/-- two aware datetimes denote the same instant ↔ they are converted to the same text (for a representable instant and
+legal microseconds): nothing is conflated, nothing is split -/
+theorem C11.utc_same_instant (a b : Time.Aware) (ha : a.micros < 1000000) (hb : b.micros < 1000000)
+    (hv : (Time.toUtcIso a).isSome = true) :
+    Time.toUtcIso a = Time.toUtcIso b ↔ a.instant = b.instant := by
+  constructor
+  · intro h
+    by_cases hra : 0 ≤ a.wall - a.offset ∧ a.wall - a.offset < (Time.maxSecs : Int)
+    · by_cases hrb : 0 ≤ b.wall - b.offset ∧ b.wall - b.offset < (Time.maxSecs : Int)
+      · rw [Time.toUtcIso_of_range a hra, Time.toUtcIso_of_range b hrb] at h
+        have hl := String.ofList_injective (Option.some.inj h)
+        have := Time.isoOfInstant_inj (by omega) (by omega) ha hb hl
+        unfold Time.Aware.instant
+        refine Prod.ext ?_ this.2
+        show a.wall - a.offset = b.wall - b.offset
+        omega
+      · rw [Time.toUtcIso_of_range a hra, Time.toUtcIso_of_not_range b hrb] at h; cases h
+    · rw [Time.toUtcIso_of_not_range a hra] at hv; cases hv
+  · exact C11.utc_zone_independent a b
+
+/-- outside years 1..9999 there is no text (`OverflowError` in Python), inside there always is -/
+theorem C11.utc_defined_iff (a : Time.Aware) :
+    (Time.toUtcIso a).isSome = true ↔ 0 ≤ a.wall - a.offset ∧ a.wall - a.offset < (Time.maxSecs : Int) := by
+  by_cases h : 0 ≤ a.wall - a.offset ∧ a.wall - a.offset < (Time.maxSecs : Int)
+  · rw [Time.toUtcIso_of_range a h]; exact ⟨fun _ => h, fun _ => rfl⟩
+  · rw [Time.toUtcIso_of_not_range a h]; exact ⟨fun h' => Bool.noConfusion h', fun h' => absurd h' h⟩
+
+/-- the calendar step loses nothing: `_ymd2ord (_ord2ymd n) = n` for every day number -/
+theorem C11.calendar_roundtrip (n : Nat) :
+    Time.ymd2ord0 (Time.ord2ymd n).1 (Time.ord2ymd n).2.1 (Time.ord2ymd n).2.2 = n := Time.ord2ymd_inv n
+
+/-- non-vacuity: 2021-10-31 02:30 Europe/Berlin, fold 0 (+02:00) and fold 1 (+01:00) are different instants with different
+texts; 15:00+01:00 and 09:00-05:00 are the same instant with the same text -/
+example :
+    Time.toUtcIso ⟨63771244200, 0, 7200⟩ = some "2021-10-31T00:30:00+00:00" ∧
+    Time.toUtcIso ⟨63771244200, 0, 3600⟩ = some "2021-10-31T01:30:00+00:00" ∧
+    Time.toUtcIso ⟨63871772400, 5, 3600⟩ = some "2025-01-06T14:00:00.000005+00:00" ∧
+    Time.toUtcIso ⟨63871750800, 5, -18000⟩ = some "2025-01-06T14:00:00.000005+00:00" ∧
+    Time.toUtcIso ⟨0, 0, 3600⟩ = none := by decide +kernel
